@@ -630,6 +630,9 @@ pub(super) async fn apply_prices_from_vote_extensions<S: StateWriteExt>(
     Ok(())
 }
 
+#[cfg(all(test, feature = "verif"))]
+mod verif;
+
 #[cfg(test)]
 mod test {
     use std::{
